@@ -97,6 +97,11 @@ func c08(args []string) int {
 				p = append(p, c08Op{K: 0, A: owner[s], B: s})
 				for i, k := 0, rng.Intn(5); i < k; i++ {
 					p = append(p, c08Op{K: 1 + rng.Intn(2), A: -1 - s, B: 1 + rng.Intn(3)})
+					// the idiomatic second b.Var(&x) between two Sets: asking again must continue with the SAME mocker (whatever
+					// the variable holds by now), so that Reset still restores the value from before the first Set
+					if rng.Intn(2) == 0 {
+						p = append(p, c08Op{K: 0, A: owner[s], B: s})
+					}
 				}
 				for i, k := 0, 1+rng.Intn(2); i < k; i++ {
 					if rng.Intn(2) == 0 {
